@@ -1,4 +1,7 @@
 import Gallia.Model.ClientConc
+import Gallia.Proofs.Lemmas.ClientMulti
+import Gallia.Proofs.Lemmas.ClientMultiReply
+import Gallia.Gen.C05Locks
 /-
   C05 — Concurrent users of one UDS client never interleave their exchanges.
   Statements are about *every* accepted event trace, i.e. every schedule of any number of tasks.
@@ -7,14 +10,7 @@ namespace Gallia.C05
 open Gallia.ClientConc
 
 theorem accept_append (s : Sys) (a b : List Event) :
-    accept s (a ++ b) = (accept s a).bind fun s' => accept s' b := by
-  induction a generalizing s with
-  | nil => rfl
-  | cons e es ih =>
-    simp only [List.cons_append, accept]
-    cases step s e with
-    | none => rfl
-    | some s' => exact ih s'
+    accept s (a ++ b) = (accept s a).bind fun s' => accept s' b := Gallia.ClientMulti.accept_append s a b
 
 /-- every transport operation in an accepted trace is performed by the task holding the client lock -/
 theorem ops_by_holder (s s' : Sys) (pre post : List Event) (t : Tid) (k : OpKind)
@@ -205,5 +201,559 @@ example : accept Sys.init
 
 /-- ... and a write by a task that does not hold the client is rejected -/
 example : accept Sys.init [.want 1, .got 1, .op 1 .write, .op 2 .write] = none := by decide
+
+/-! ## FIFO fairness -/
+
+/-- strike out the last occurrence -/
+def eraseLast (t : Tid) (l : List Tid) : List Tid := (l.reverse.erase t).reverse
+
+/-- the queue as the property describes it, written without reference to the lock: tasks in the order in which they
+    asked for the client; a task that is cancelled while it waits is struck out (its latest request) -/
+def arrivalsOf : List Event → List Tid → List Tid
+  | [], q => q
+  | .want t :: es, q => arrivalsOf es (q ++ [t])
+  | .unwait t :: es, q => arrivalsOf es (eraseLast t q)
+  | _ :: es, q => arrivalsOf es q
+
+/-- the tasks that obtained the client, in that order -/
+def grantsOf : List Event → List Tid
+  | [] => []
+  | .got t :: es => t :: grantsOf es
+  | _ :: es => grantsOf es
+
+theorem eraseLast_append_mem (g w : List Tid) (t : Tid) (hm : t ∈ w) (hn : w.Nodup) :
+    eraseLast t (g ++ w) = g ++ w.filter (· ≠ t) := by
+  unfold eraseLast
+  have hr : w.reverse.Nodup := by
+    unfold List.Nodup at hn ⊢
+    rw [List.pairwise_reverse]
+    exact hn.imp (fun h => h.symm)
+  rw [List.reverse_append, List.erase_append_left _ (by simpa using hm), List.reverse_append, List.reverse_reverse,
+    hr.erase_eq_filter, List.filter_reverse, List.reverse_reverse]
+  congr 1
+  apply List.filter_congr
+  intro x _; by_cases hx : x = t <;> simp [hx]
+
+theorem fifo_gen (evs : List Event) (s0 s : Sys) (g : List Tid) (hi : Inv s0) (h : accept s0 evs = some s) :
+    g ++ grantsOf evs ++ s.waiters = arrivalsOf evs (g ++ s0.waiters) := by
+  induction evs generalizing s0 g with
+  | nil => simp only [accept] at h; injection h with h; subst h; simp [grantsOf, arrivalsOf]
+  | cons e es ih =>
+    simp only [accept] at h
+    cases he : step s0 e with
+    | none => rw [he] at h; cases h
+    | some s1 =>
+      rw [he] at h
+      have hi1 := inv_step s0 s1 e hi he
+      cases e with
+      | want t =>
+        have := ih s1 g hi1 h
+        simp only [step] at he; split at he
+        · cases he
+        · injection he with he; subst he
+          simpa [grantsOf, arrivalsOf, List.append_assoc] using this
+      | got t =>
+        have := ih s1 (g ++ [t]) hi1 h
+        simp only [step] at he; split at he
+        · rename_i w ws _ hw
+          split at he
+          · rename_i hwt; subst hwt
+            injection he with he; subst he
+            simpa [grantsOf, arrivalsOf, List.append_assoc, hw] using this
+          · cases he
+        · cases he
+      | op t k =>
+        have := ih s1 g hi1 h
+        simp only [step] at he; split at he
+        · injection he with he; subst he; simpa [grantsOf, arrivalsOf] using this
+        · cases he
+      | rel t =>
+        have := ih s1 g hi1 h
+        simp only [step] at he; split at he
+        · injection he with he; subst he; simpa [grantsOf, arrivalsOf] using this
+        · cases he
+      | unwait t =>
+        have := ih s1 g hi1 h
+        simp only [step] at he; split at he
+        · rename_i hm
+          injection he with he; subst he
+          simp only [grantsOf, arrivalsOf]
+          rw [eraseLast_append_mem g s0.waiters t hm hi.1]
+          exact this
+        · cases he
+      | ended t =>
+        have := ih s1 g hi1 h
+        simp only [step] at he; split at he
+        · cases he
+        · injection he with he; subst he; simpa [grantsOf, arrivalsOf] using this
+
+/-- **fifo_fairness** (acceptor level): in every accepted trace the tasks that obtained the client so far, followed by
+    those still waiting, are exactly the arrivals in arrival order with the cancelled waits struck out: grant order =
+    arrival order among uncancelled waiters, nobody overtakes and nobody is skipped -/
+theorem fifo_fairness_trace (evs : List Event) (s : Sys) (h : accept Sys.init evs = some s) :
+    grantsOf evs ++ s.waiters = arrivalsOf evs [] := by
+  have := fifo_gen evs Sys.init s [] ⟨by simp [Sys.init], by intro t ht; cases ht⟩ h
+  simpa [Sys.init] using this
+
+example : grantsOf [.want 1, .got 1, .want 2, .want 3, .want 4, .unwait 3, .rel 1, .got 2] = [1, 2] ∧
+    arrivalsOf [.want 1, .got 1, .want 2, .want 3, .want 4, .unwait 3, .rel 1, .got 2] [] = [1, 2, 4] := by decide
+
+/-! ## the multi-task operational model (`Model/ClientMulti.lean`)
+
+  `P : Progs` gives every task its program, `WF P` says every round is lock-bracketed (`real_wf`: the programs of gallia's
+  callers are), `born` says which tasks exist from the start, `cs : List Choice` is an arbitrary schedule (which task runs,
+  where a CancelledError is delivered, which message the network delivers when). -/
+
+section Multi
+open Gallia.ClientMulti hiding Inv accept_append
+
+/-- **the programs of gallia's callers are lock-bracketed**: a system whose tasks are callers of `request()` (`requestX`
+    over any configuration and script: retries, responsePending polls, backoff, reconnects included), callers of
+    `reconnect()`, tester-present workers, and tasks performing any sequence of such calls, sleeps,
+    `start_cyclic_tester_present` / `stop_cyclic_tester_present` (a scanner's main task, `wait_for_ecu`) satisfies the
+    hypothesis `WF P` of every theorem below -/
+theorem callers_are_bracketed (P : Progs) (h : ∀ t, RealProg (P t)) : WF P := real_wf P h
+
+/-- **refinement**: whatever the scheduler does, the events of the operational model (tasks running their programs
+    against an owner-less lock) form a trace the lock-discipline acceptor accepts, ending in the model's lock state -
+    so every theorem about accepted traces above holds for the runs of the operational model -/
+theorem events_accepted (P : Progs) (hP : WF P) (born : Tid → Bool) (cs : List Choice) (s : MSys)
+    (h : mrun P (MSys.init P born) cs = some s) : accept Sys.init s.events = some s.lock :=
+  (rinv_run P hP cs _ s (rinv_init P hP born) h).2
+
+/-- **wire_is_serial**: for every schedule and every script, between the moment task `t` obtains the client and its
+    release - first transmission, responsePending polls, backoff, reconnect, retransmissions - every write / read /
+    reconnect on the wire is `t`'s -/
+theorem wire_is_serial (P : Progs) (hP : WF P) (born : Tid → Bool) (cs : List Choice) (s : MSys)
+    (h : mrun P (MSys.init P born) cs = some s) (pre mid post : List Event) (t u : Tid) (k : OpKind)
+    (he : s.events = pre ++ Event.got t :: (mid ++ Event.op u k :: post)) (hno : ∀ e ∈ mid, e ≠ Event.rel t) : u = t :=
+  exclusive Sys.init s.lock pre mid post t u k (by rw [← he]; exact events_accepted P hP born cs s h) hno
+
+/-- the event trace IS the wire: the transport operations of the await points the tasks completed (`log`: task, round,
+    await point of its program) and the `op` events are the same sequence of (task, write / read / reconnect) - so
+    `wire_is_serial` speaks about the operations of the callers' programs (`requestX` traces) -/
+theorem events_are_the_wire (P : Progs) (born : Tid → Bool) (cs : List Choice) (s : MSys)
+    (h : mrun P (MSys.init P born) cs = some s) : s.log.filterMap wireOfLog = s.events.filterMap wireOfEvent :=
+  run_wire P cs _ s h rfl
+
+/-- … and at the level of single steps: a task whose next await point touches the transport holds the lock, and
+    nobody else does -/
+theorem wire_op_by_holder (P : Progs) (hP : WF P) (born : Tid → Bool) (cs : List Choice) (s : MSys)
+    (h : mrun P (MSys.init P born) cs = some s) (t : Tid) (a : Act) (rest : List Act)
+    (hc : (s.tasks t).phase = .idle ∨ (s.tasks t).phase = .holding) (htodo : (s.tasks t).todo = a :: rest)
+    (hw : a.isWire = true) : s.lock.holder = some t ∧ ∀ u, u ≠ t → (s.tasks u).phase ≠ .holding := by
+  have hi := (rinv_run P hP cs _ s (rinv_init P hP born) h).1
+  obtain ⟨wi, _⟩ := phaseOk_cons (hi.ok t) htodo
+  have hh : s.lock.holder = some t := by
+    rcases hc with hc | hc
+    · have := wi hc
+      cases a with
+      | io o => simp [wfIn, Act.isWire] at this hw; rw [Option.isSome_iff_ne_none] at hw; exact absurd this.1 hw
+      | _ => simp [Act.isWire] at hw
+    · exact (hi.hold t).mp hc
+  refine ⟨hh, ?_⟩
+  intro u hu e
+  have := (hi.hold u).mp e
+  rw [hh] at this; injection this with this; exact hu this.symm
+
+/-- **release_only_by_holder** (the owner-less `asyncio.Lock.release()`): the step function lets ANY task release the
+    lock; in every reachable state a task whose next await point is `release` is the holder -/
+theorem release_only_by_holder (P : Progs) (hP : WF P) (born : Tid → Bool) (cs : List Choice) (s : MSys)
+    (h : mrun P (MSys.init P born) cs = some s) (t : Tid) (rest : List Act)
+    (hc : (s.tasks t).phase = .idle ∨ (s.tasks t).phase = .holding) (htodo : (s.tasks t).todo = .release :: rest) :
+    s.lock.holder = some t := by
+  have hi := (rinv_run P hP cs _ s (rinv_init P hP born) h).1
+  obtain ⟨wi, _⟩ := phaseOk_cons (hi.ok t) htodo
+  rcases hc with hc | hc
+  · have := wi hc; simp [wfIn] at this
+  · exact (hi.hold t).mp hc
+
+/-- **fifo_fairness**: in every run of the operational model, grant order = arrival order among uncancelled waiters -/
+theorem fifo_fairness (P : Progs) (hP : WF P) (born : Tid → Bool) (cs : List Choice) (s : MSys)
+    (h : mrun P (MSys.init P born) cs = some s) : grantsOf s.events ++ s.lock.waiters = arrivalsOf s.events [] :=
+  fifo_fairness_trace s.events s.lock (events_accepted P hP born cs s h)
+
+/-- **cancel_safe**: cancelling a task that WAITS for the client neither releases it nor steals it: the holder stays
+    the holder, the other waiters keep their order, nobody else's state changes, and the cancelled task never holds the
+    client afterwards, whatever the rest of the schedule -/
+theorem cancel_safe (P : Progs) (hP : WF P) (born : Tid → Bool) (cs : List Choice) (s : MSys)
+    (h : mrun P (MSys.init P born) cs = some s) (t : Tid) (hp : (s.tasks t).phase = .waiting) :
+    ∃ s', mstep P s (.cancel t) = some s' ∧ s'.lock.holder = s.lock.holder ∧
+      s'.lock.waiters = s.lock.waiters.filter (· ≠ t) ∧ (∀ u, u ≠ t → s'.tasks u = s.tasks u) ∧ s'.inbox = s.inbox ∧
+      ∀ cs' s'', mrun P s' cs' = some s'' → s''.lock.holder ≠ some t ∧ t ∉ s''.lock.waiters := by
+  obtain ⟨s', hm, h1, h2, h3, h4, h5, _⟩ := cancel_waiting_step P s t hp
+  refine ⟨s', hm, h1, h2, h4, h5, ?_⟩
+  intro cs' s'' hr
+  have hri := rinv_run P hP cs _ s (rinv_init P hP born) h
+  have hi'' := (rinv_run P hP cs' s' s'' (rinv_step P hP s s' _ hri hm) hr).1
+  have hd : (s''.tasks t).phase = .done := by rw [done_forever P cs' s' s'' hr t h3]; exact h3
+  constructor
+  · intro e; have := (hi''.hold t).mpr e; rw [hd] at this; cases this
+  · intro e; have := (hi''.wait t).mpr e; rw [hd] at this; cases this
+
+/-- **progress_multi**: in every reachable state
+    (a) the holder may be cancelled at whatever await point it is suspended in (write, read, responsePending poll,
+        backoff sleep, reconnect): the client is free at once and the queue is untouched;
+    (b) a holder that ends its exchange - reply, error or exception: its next await point is `release` - frees the client;
+    (c) no deadlock: whenever the client is free and somebody waits, the longest waiter is granted the client by its next
+        step (or, if it is a worker being stopped, its cancellation removes it and the next one is at the head);
+    (d) hence a leaving holder hands over to the longest waiter -/
+theorem progress_multi (P : Progs) (hP : WF P) (born : Tid → Bool) (cs : List Choice) (s : MSys)
+    (h : mrun P (MSys.init P born) cs = some s) :
+    (∀ t, s.lock.holder = some t →
+      ∃ s', mstep P s (.cancel t) = some s' ∧ s'.lock.holder = none ∧ s'.lock.waiters = s.lock.waiters ∧
+        (∀ u, u ≠ t → s'.tasks u = s.tasks u)) ∧
+    (∀ t rest, s.lock.holder = some t → (s.tasks t).stopReq = false → (s.tasks t).todo = .release :: rest →
+      ∃ s', mstep P s (.run t) = some s' ∧ s'.lock.holder = none ∧ s'.lock.waiters = s.lock.waiters ∧
+        (∀ u, u ≠ t → s'.tasks u = s.tasks u)) ∧
+    (∀ w ws, s.lock.holder = none → s.lock.waiters = w :: ws →
+      ((s.tasks w).stopReq = false → ∃ s', mstep P s (.run w) = some s' ∧ s'.lock = { holder := some w, waiters := ws }) ∧
+      ((s.tasks w).stopReq = true → ∃ s', mstep P s (.cancel w) = some s' ∧ s'.lock = { holder := none, waiters := ws })) := by
+  have hi := (rinv_run P hP cs _ s (rinv_init P hP born) h).1
+  refine ⟨?_, ?_, ?_⟩
+  · intro t ht
+    obtain ⟨s', hm, h1, h2, _, h4, _⟩ := cancel_holding_step P s t ((hi.hold t).mpr ht)
+    exact ⟨s', hm, h1, h2, h4⟩
+  · intro t rest ht hs htodo
+    exact release_step P s t t rest (.inr ((hi.hold t).mpr ht)) hs htodo ht
+  · intro w ws hh hw
+    have hpw : (s.tasks w).phase = .waiting := (hi.wait w).mpr (by rw [hw]; simp)
+    constructor
+    · intro hs
+      obtain ⟨s', hm, h1, _⟩ := grant_step P s w ws hpw hs hh hw
+      exact ⟨s', hm, h1⟩
+    · intro _
+      obtain ⟨s', hm, h1, h2, _⟩ := cancel_waiting_step P s w hpw
+      refine ⟨s', hm, ?_⟩
+      have hnd := hi.nodup
+      rw [hw] at hnd
+      have hnot : w ∉ ws := (List.nodup_cons.mp hnd).1
+      have : s'.lock.waiters = ws := by
+        rw [h2, hw]
+        simp only [ne_eq, decide_not, List.filter_cons, decide_true, Bool.not_true, Bool.false_eq_true, if_false]
+        apply List.filter_eq_self.mpr
+        intro a ha; simp; rintro rfl; exact hnot ha
+      cases hl : s'.lock with
+      | mk hd wt => rw [hl] at h1 this; simp at h1 this; rw [h1, hh, this]
+
+/-- a leaving holder hands the client to the longest waiter: cancellation of the holder at any await point followed by
+    the waiter's next step -/
+theorem handover_on_cancel (P : Progs) (hP : WF P) (born : Tid → Bool) (cs : List Choice) (s : MSys)
+    (h : mrun P (MSys.init P born) cs = some s) (t w : Tid) (ws : List Tid) (ht : s.lock.holder = some t)
+    (hw : s.lock.waiters = w :: ws) (hs : (s.tasks w).stopReq = false) :
+    ∃ s'', mrun P s [.cancel t, .run w] = some s'' ∧ s''.lock = { holder := some w, waiters := ws } := by
+  obtain ⟨s', hm, h1, h2, h3⟩ := (progress_multi P hP born cs s h).1 t ht
+  have hr' : mrun P (MSys.init P born) (cs ++ [.cancel t]) = some s' := by
+    rw [mrun_append, h]; simp [mrun, hm]
+  have hne : w ≠ t := by
+    have hi := (rinv_run P hP cs _ s (rinv_init P hP born) h).1
+    rintro rfl
+    have a := (hi.hold w).mpr ht
+    have b := (hi.wait w).mpr (by rw [hw]; simp)
+    rw [a] at b; cases b
+  obtain ⟨s'', hm2, hl⟩ := ((progress_multi P hP born _ s' hr').2.2 w ws h1 (by rw [h2, hw])).1 (by rw [h3 w hne]; exact hs)
+  exact ⟨s'', by simp [mrun, hm, hm2], hl⟩
+
+/-- **stop_terminates** (`stop_cyclic_tester_present`: `task.cancel()`, `await asyncio.wait([task])`): wherever the
+    worker `w` is - in its interval sleep, waiting for the client, or in the middle of its exchange holding the client -
+    the stopping task's `cancel()` step is enabled; from then on the worker performs no step of its own; the delivery of the
+    cancellation is enabled and leaves the worker ended, neither holding nor waiting for the client (a client it held is
+    free, the queue is otherwise untouched); after that the `wait` of the stopping task is enabled.  A worker that has
+    already ended makes both steps of the stopping task enabled at once. -/
+theorem stop_terminates (P : Progs) (hP : WF P) (born : Tid → Bool) (cs : List Choice) (s : MSys)
+    (h : mrun P (MSys.init P born) cs = some s) (u w : Tid) (rest : List Act) (hne : w ≠ u)
+    (hp : (s.tasks u).phase = .idle) (hs : (s.tasks u).stopReq = false)
+    (htodo : (s.tasks u).todo = .stop w :: .join w :: rest) :
+    ∃ s1, mstep P s (.run u) = some s1 ∧ s1.lock = s.lock ∧
+      ((s.tasks w).phase = .done → ∃ s3, mstep P s1 (.run u) = some s3 ∧ s3.lock = s.lock) ∧
+      ((s.tasks w).phase ≠ .done →
+        mstep P s1 (.run w) = none ∧
+        ∃ s2, mstep P s1 (.cancel w) = some s2 ∧ (s2.tasks w).phase = .done ∧
+          s2.lock.holder ≠ some w ∧ w ∉ s2.lock.waiters ∧
+          (∀ x, x ≠ w → s.lock.holder = some x → s2.lock.holder = some x) ∧
+          (∀ cs' s'', mrun P s2 cs' = some s'' → s''.log.filter (·.1 == w) = s2.log.filter (·.1 == w)) ∧
+          ∃ s3, mstep P s2 (.run u) = some s3 ∧ s3.lock = s2.lock) := by
+  obtain ⟨s1, hm1, hl1, ht1, hp1, hs1, hnd, hd⟩ := stop_step P s u w rest hne hp hs htodo
+  refine ⟨s1, hm1, hl1, ?_, ?_⟩
+  · intro hdone
+    obtain ⟨s3, hm3, hl3⟩ := join_step P s1 u w rest hp1 hs1 ht1 (by rw [hd hdone]; exact hdone)
+    exact ⟨s3, hm3, by rw [hl3, hl1]⟩
+  · intro hnot
+    obtain ⟨hsr, hph⟩ := hnd hnot
+    refine ⟨stopped_silent P s1 w hsr, ?_⟩
+    have hri1 := rinv_step P hP s s1 _ (rinv_run P hP cs _ s (rinv_init P hP born) h) hm1
+    have hi1 := hri1.1
+    -- the delivery, by the phase the worker is in
+    have hcancel : ∃ s2, mstep P s1 (.cancel w) = some s2 ∧ (s2.tasks w).phase = .done ∧
+        (∀ x, x ≠ w → s2.tasks x = s1.tasks x) ∧ (∀ x, x ≠ w → s1.lock.holder = some x → s2.lock.holder = some x) ∧
+        s2.log = s1.log := by
+      cases hpw : (s1.tasks w).phase with
+      | done => rw [hph] at hpw; exact absurd hpw hnot
+      | waiting =>
+        obtain ⟨s2, a, b, _, d, e, _, g⟩ := cancel_waiting_step P s1 w hpw
+        exact ⟨s2, a, d, e, fun x _ hx => by rw [b]; exact hx, g⟩
+      | holding =>
+        obtain ⟨s2, a, _, _, d, e, _, g⟩ := cancel_holding_step P s1 w hpw
+        refine ⟨s2, a, d, e, ?_, g⟩
+        intro x hx hh
+        have := (hi1.hold w).mp hpw
+        rw [this] at hh; injection hh with hh; exact absurd hh.symm hx
+      | idle =>
+        obtain ⟨s2, a, b, d, e, _, g⟩ := cancel_out_step P s1 w (.inl hpw)
+        exact ⟨s2, a, d, e, fun x _ hx => by rw [b]; exact hx, g⟩
+      | unborn =>
+        obtain ⟨s2, a, b, d, e, _, g⟩ := cancel_out_step P s1 w (.inr hpw)
+        exact ⟨s2, a, d, e, fun x _ hx => by rw [b]; exact hx, g⟩
+    obtain ⟨s2, hm2, hd2, hfr, hkeep, _⟩ := hcancel
+    have hri2 := rinv_step P hP s1 s2 _ hri1 hm2
+    have hi2 := hri2.1
+    refine ⟨s2, hm2, hd2, ?_, ?_, ?_, ?_, ?_⟩
+    · intro e; have := (hi2.hold w).mpr e; rw [hd2] at this; cases this
+    · intro e; have := (hi2.wait w).mpr e; rw [hd2] at this; cases this
+    · intro x hx hh; exact hkeep x hx (by rw [hl1]; exact hh)
+    · intro cs' s'' hr
+      exact ended_task_is_silent P cs' s2 s'' hr w hd2
+    · have hu2 : s2.tasks u = s1.tasks u := hfr u (fun e => hne e.symm)
+      exact join_step P s2 u w rest (by rw [hu2]; exact hp1) (by rw [hu2]; exact hs1) (by rw [hu2]; exact ht1) hd2
+
+/-! ### replies: one inbox, whoever reads next gets the message -/
+
+open Gallia.UdsReq Gallia.UdsMatch Gallia.Reply Gallia.Client Gallia.ClientIO in
+/-- **own_reply_or_error**: task `t` calls `request()` for request `r` over its script `io`; the transport has one inbox
+    and late replies to other tasks' earlier requests are handed to whoever reads next.  For every schedule:
+    (1) every message `t` has consumed was classified by `parse_pdu` against `t`'s OWN request, and a message that is
+        `Foreign` to `r` (reply of another service, negative response naming another service, positive reply echoing
+        another primary identifier - e.g. the late reply to another caller's request; `Spec/Reply.lean`) was refused as
+        mismatch: the request ends with IllegalResponse for that read, never with that message as its result;
+    (2) when the call has returned a reply, that reply is a message `t` itself consumed, accepted by `parse_pdu` against
+        `r`, and not foreign to `r`.
+    The caveat is the hypothesis `Foreign r b`: a late reply to a byte-identical request (`classify_bytes`) and a late
+    negative response naming the same service are not foreign - UDS has no sequence numbers (`same_service_negative_not_foreign`). -/
+theorem own_reply_or_error (P : Progs) (hP : WF P) (born : Tid → Bool) (cs : List Choice) (s : MSys)
+    (h : mrun P (MSys.init P born) cs = some s) (t : Tid) (c : CfgX) (r : Req) (io : Script)
+    (hp : P t = Prog.request c r io) (hwf : r.WF) :
+    (∀ n k b, (n, k, b) ∈ (s.tasks t).reads → classify r b = io.rd k ∧
+      (Foreign r b → io.rd k = .mismatch ∧ (requestX c io).out = .base (.illegal k))) ∧
+    (finished (s.tasks t) = true → ∀ k, (requestX c io).out = .base (.reply k) →
+      ∃ b x, (0, k, b) ∈ (s.tasks t).reads ∧ parsePdu b r = .accepted x ∧ ¬ Foreign r b) := by
+  have hro := run_readsOk P cs _ s (init_readsOk P born) h t
+  have hi := (rinv_run P hP cs _ s (rinv_init P hP born) h).1
+  have hround : ∀ n, (P t).round n = Round.request c r io := by intro n; rw [hp]; rfl
+  have hcls : ∀ n k b, (n, k, b) ∈ (s.tasks t).reads → classify r b = io.rd k ∧ ∃ tmo d, OpX.rd k tmo d ∈ (runX c io).trace := by
+    intro n k b hm
+    obtain ⟨h1, _, tmo, d, h3⟩ := hro.classified n k b hm
+    rw [hround n] at h1 h3
+    exact ⟨h1, tmo, d, (mem_request_acts c r io k tmo d).mp h3⟩
+  constructor
+  · intro n k b hm
+    obtain ⟨h1, tmo, d, h3⟩ := hcls n k b hm
+    refine ⟨h1, ?_⟩
+    intro hf
+    have hmm : io.rd k = .mismatch := by rw [← h1]; exact classify_foreign r hwf b hf
+    exact ⟨hmm, (runX_read_decides c io k tmo d h3).1 (by rw [hmm]; rfl)⟩
+  · intro hfin k hk
+    simp only [finished, Bool.and_eq_true, beq_iff_eq, Bool.not_eq_true'] at hfin
+    obtain ⟨hdone, hnab⟩ := hfin
+    have htodo : (s.tasks t).todo = [] := by have := hi.ok t; simp only [PhaseOk, hdone] at this; exact this
+    have hr0 : (s.tasks t).round = 0 := by
+      rcases hro.roundOk with h0 | h0
+      · exact h0
+      · rw [hp] at h0; simp [Prog.request, Prog.hasRound] at h0; exact h0
+    have hhas : (P t).hasRound (s.tasks t).round = true := by rw [hr0, hp]; rfl
+    obtain ⟨pre, hpre, hcov⟩ := hro.current hnab (by rw [hdone]; intro e; cases e) hhas
+    rw [htodo, List.append_nil, hr0] at hpre
+    rw [hr0] at hcov
+    obtain ⟨⟨tmo, d, hmem⟩, hrep⟩ := (runX_out_read c io k).1 hk
+    have hact : Act.io (.rd k tmo d) ∈ pre := by
+      rw [← hpre, hround 0]; exact (mem_request_acts c r io k tmo d).mpr hmem
+    have hcons : consuming (((P t).round 0).rd k) = true := by
+      rw [hround 0]; show consuming (io.rd k) = true
+      cases hev : io.rd k <;> simp_all [replyEv, consuming]
+    obtain ⟨b, hb⟩ := hcov k tmo d hact hcons
+    obtain ⟨h1, _⟩ := hcls 0 k b hb
+    have hrb : replyEv (classify r b) = true := by rw [h1]; exact hrep
+    obtain ⟨x, hx⟩ := classify_reply_accepted r b hrb
+    exact ⟨b, x, hb, hx, reply_not_foreign r hwf b hrb⟩
+
+open Gallia.UdsReq Gallia.Reply in
+/-- the reply-crossing case of the tie: the positive reply to another caller's ReadDataByIdentifier request for a
+    different identifier is foreign to this caller's request (so `own_reply_or_error` applies to it) -/
+theorem rdbi_cross_is_foreign (d d' : Nat) (b : Bytes) (hne : d ≠ d') (hg : Genuine (.rdbi [d']) b)
+    (hpos : isNegative b = false) : Foreign (.rdbi [d]) b := by
+  unfold Genuine genuineB at hg
+  unfold Foreign foreignB
+  simp only [Reply.reqSid, encode] at hg ⊢
+  simp only [List.head?_cons, hpos, Bool.false_and, Bool.false_or, Bool.and_eq_true] at hg ⊢
+  obtain ⟨hd, hp, he⟩ := hg
+  simp only [view, echoOK, List.head?_cons, beq_iff_eq] at he
+  simp [hp, hd, view, echoOK, he]
+  exact fun e => hne e.symm
+
+open Gallia.UdsReq Gallia.Reply in
+/-- the caveat of `own_reply_or_error`, made explicit: a negative response naming the service of the request is never
+    foreign to it, whichever request of that service it was sent for (UDS negative responses carry the service id only) -/
+theorem same_service_negative_not_foreign (r : Req) (s nrc : UInt8) (rest : Bytes) (hs : Reply.reqSid r = some s) :
+    ¬ Foreign r (0x7F :: s :: nrc :: rest) := by
+  unfold Foreign foreignB
+  rw [hs]
+  simp [isNegative, positiveOf]
+
+/-! ### the tester-present worker -/
+
+open Gallia.Client Gallia.ClientIO in
+/-- **worker_only_via_lock**: in a system made of gallia's callers, the tester-present worker `w` (interval `iv`) does in
+    every pass of its loop exactly: the interval sleep outside the client, then one `request()` with `max_retry = 0` -
+    acquire, one transmission at most, no backoff sleep, no reconnect (a lost connection ends the ping with
+    MissingResponse, which the loop logs and survives), release; whenever its next await point touches the transport
+    it holds the client, and every transport operation of `w` in the event trace happens while `w` is the holder -/
+theorem worker_only_via_lock (P : Progs) (hreal : ∀ t, RealProg (P t)) (born : Tid → Bool) (cs : List Choice) (s : MSys)
+    (h : mrun P (MSys.init P born) cs = some s) (w : Tid) (iv : Nat) (c : CfgX) (ios : Nat → Script)
+    (hw : P w = Prog.worker iv c ios) :
+    (∀ n, ((P w).round n).acts =
+      .io (.sl iv) :: .acquire :: ((runX (workerCfg c) (ios n)).trace.map Act.io ++ [.release])) ∧
+    (∀ n, (runX (workerCfg c) (ios n)).writes ≤ 1 ∧ (runX (workerCfg c) (ios n)).sleeps = [] ∧
+      (runX (workerCfg c) (ios n)).reconnects = 0) ∧
+    (∀ a rest, ((s.tasks w).phase = .idle ∨ (s.tasks w).phase = .holding) → (s.tasks w).todo = a :: rest →
+      a.isWire = true → s.lock.holder = some w) ∧
+    (∀ pre post k, s.events = pre ++ Event.op w k :: post → ∃ s1, accept Sys.init pre = some s1 ∧ s1.holder = some w) := by
+  have hP := real_wf P hreal
+  refine ⟨?_, ?_, ?_, ?_⟩
+  · intro n
+    rw [hw]
+    show Act.io (.sl iv) :: (requestX (workerCfg c) (ios n)).trace.map Act.ofReq = _
+    rw [request_acts]
+  · intro n
+    have hb := (attemptsX_bounds (workerCfg c) (ios n) 0 0 0 (.missing false)).writes
+    have hs := attemptsX_sleeps (workerCfg c) (ios n) 0 0 0 (.missing false)
+    refine ⟨?_, ?_, runX_no_rc (workerCfg c) (ios n) rfl⟩
+    · simpa [runX, ResX.writes, workerCfg] using hb
+    · have : ((List.range' 0 ((workerCfg c).maxRetry - 0)).map (waitX (workerCfg c))) = [] := by simp [workerCfg]
+      rw [this] at hs
+      simpa [runX, ResX.sleeps] using hs
+  · intro a rest hc htodo hwire
+    exact (wire_op_by_holder P hP born cs s h w a rest hc htodo hwire).1
+  · intro pre post k he
+    exact ops_by_holder Sys.init s.lock pre post w k (by rw [← he]; exact events_accepted P hP born cs s h)
+
+/-! ### (T) where the code touches a mutex, regenerated from the AST on every run -/
+
+/-- **lock_sites_agree**: in client.py, ecu.py and transports/base.py a mutex is created in the two constructors and
+    used in exactly four places, each an `async with self.mutex` block (`UDSClient.reconnect`, `UDSClient._request`,
+    `BaseTransport.reconnect`, `BaseTransport.request`); there is no bare `.acquire()` / `.release()` / `.locked()` call
+    and no re-assignment of a mutex.  `async with` releases exactly what it acquired, on return, exception and
+    cancellation: this is what makes the callers' programs bracketed (`wfIn`, `real_wf`) -/
+theorem lock_sites_agree : Gen.C05Locks.lockSites = [
+    ("client", "UDSClient.__init__", "create", "self.mutex"),
+    ("client", "UDSClient.reconnect", "asyncWith", "self.mutex"),
+    ("client", "UDSClient._request", "asyncWith", "self.mutex"),
+    ("base", "BaseTransport.__init__", "create", "self.mutex"),
+    ("base", "BaseTransport.reconnect", "asyncWith", "self.mutex"),
+    ("base", "BaseTransport.request", "asyncWith", "self.mutex")] := by decide
+
+/-- the methods that use the transport without taking the client lock themselves -/
+def unlockedFns : List String :=
+  ["UDSClient.request_unsafe", "UDSClient.reconnect_unsafe", "UDSClient._read", "UDSClient._tester_present",
+   "BaseTransport.request_unsafe"]
+
+/-- a call of an unlocked method is either lexically inside `async with <mutex>` or made by another unlocked method;
+    nobody calls `_tester_present` (its `suppress_resp=True` branch writes without the lock) -/
+def callGuarded (c : String × String × String × Bool) : Bool :=
+  (c.2.2.2 || unlockedFns.contains c.2.1) && c.2.2.1 != "_tester_present"
+
+/-- **unlocked_calls_guarded**: every call of `request_unsafe` / `reconnect_unsafe` / `_read` / `transport.write|read|
+    request|request_unsafe|reconnect|close` in client.py, ecu.py, transports/base.py is inside an `async with
+    <mutex>` block or inside one of the unlocked methods, whose only entry points are therefore the locked ones; the
+    lock-free `_tester_present` has no caller.  (`ECU` adds no transport access of its own: all of ecu.py goes
+    through `request()` / `reconnect()`.) -/
+theorem unlocked_calls_guarded :
+    Gen.C05Locks.unlockedCalls.all callGuarded = true ∧
+    (Gen.C05Locks.unlockedCalls.filter (fun c => c.1 == "ecu")).length = 0 := by decide
+
+/-! ### non-vacuity: concrete systems, evaluated by the kernel -/
+
+section Examples
+open Gallia.Client Gallia.ClientIO Gallia.UdsReq
+
+def exCfg (maxRetry : Nat) : CfgX := ⟨maxRetry, some 1000, some 1000, 0, Limits.std⟩
+def exScript (w : List WEv) (r : List Ev) (rc : List RcEv) : Script :=
+  ⟨fun j => w.getD j .ok, fun k => r.getD k .timeout, fun m => rc.getD m .ok⟩
+
+/-- caller 1 reads identifier 0x1000 (its reply comes late: timeout), caller 2 reads 0x1001 with one retry after a lost
+    connection, task 3 is the tester-present worker, task 4 starts and stops it -/
+def exP : Progs := fun t =>
+  if t = 1 then Prog.request (exCfg 0) (.rdbi [0x1000]) (exScript [] [.timeout] [])
+  else if t = 2 then Prog.request (exCfg 1) (.rdbi [0x1001]) (exScript [] [.mismatch] [])
+  else if t = 3 then Prog.worker 350 (exCfg 0) (fun _ => exScript [] [.posFinal] [])
+  else Prog.seq [Round.startWorker 3, Round.stopWorker 3]
+
+def exBorn : Tid → Bool := fun t => t == 1 || t == 2 || t == 4
+
+theorem exP_real : ∀ t, RealProg (exP t) := by
+  intro t
+  unfold exP
+  split
+  · exact .inl ⟨_, _, _, rfl⟩
+  · split
+    · exact .inl ⟨_, _, _, rfl⟩
+    · split
+      · exact .inr (.inr (.inl ⟨_, _, _, rfl⟩))
+      · refine .inr (.inr (.inr ⟨_, rfl, ?_⟩))
+        intro r hr
+        simp at hr
+        rcases hr with rfl | rfl
+        · exact .inr (.inr (.inr (.inr (.inl ⟨3, rfl⟩))))
+        · exact .inr (.inr (.inr (.inr (.inr ⟨3, rfl⟩))))
+
+/-- the schedule: 4 starts the worker; 1 obtains the client and transmits, 2 and the worker queue up behind it; 1 times
+    out and releases; 2 is granted the client (FIFO), transmits, and the LATE reply to 1's request (62 10 00 ..) arrives
+    while 2 reads: 2 gets IllegalResponse, not that reply; the worker is cancelled by `stop` while it waits for the client -/
+def exSched : List Choice :=
+  [.run 4, .run 4, .run 1, .run 1, .run 1, .run 2, .run 3, .run 3, .run 1, .run 1, .run 2, .run 2,
+   .deliver [0x62, 0x10, 0x00, 0xAB], .run 2, .run 2, .run 4, .cancel 3, .run 4]
+
+def exCheck (o : Option MSys) : Bool :=
+  match o with
+  | some s =>
+    s.lock.holder == none && s.lock.waiters == [] &&
+    finished (s.tasks 1) && finished (s.tasks 2) && finished (s.tasks 4) &&
+    (s.tasks 3).phase == .done && (s.tasks 3).aborted &&
+    (s.tasks 2).reads == [(0, 0, [0x62, 0x10, 0x00, 0xAB])] && (s.tasks 1).reads == [] &&
+    grantsOf s.events == [1, 2] && arrivalsOf s.events [] == [1, 2]
+  | none => false
+
+/-- the schedule is enabled step by step and ends as described: the hypotheses of the theorems above are satisfiable -/
+example : exCheck (mrun exP (MSys.init exP exBorn) exSched) = true := by decide +kernel
+
+example : (requestX (exCfg 1) (exScript [] [.mismatch] [])).out = .base (.illegal 0) ∧
+    (requestX (exCfg 0) (exScript [] [.timeout] [])).out = .base (.missing false) := by decide +kernel
+
+open Gallia.Reply in
+example : Foreign (.rdbi [0x1001]) [0x62, 0x10, 0x00, 0xAB] ∧ Genuine (.rdbi [0x1000]) [0x62, 0x10, 0x00, 0xAB] ∧
+    (Req.rdbi [0x1001]).WF ∧ classify (.rdbi [0x1001]) [0x62, 0x10, 0x00, 0xAB] = .mismatch := by decide +kernel
+
+/-- hypotheses of `cancel_safe`, `stop_terminates`, `progress_multi` (c): after this prefix the worker waits for the client
+    held by 1 with 2 ahead of it, and 4 is about to stop it -/
+example : (match mrun exP (MSys.init exP exBorn) (exSched.take 8) with
+    | some s => (s.tasks 3).phase == .waiting && s.lock.holder == some 1 && s.lock.waiters == [2, 3]
+    | none => false) = true := by decide +kernel
+
+/-- **why the bracketing matters** (the owner-less `asyncio.Lock.release()`): a program with a stray `release` - e.g. a
+    `finally: self.mutex.release()` reached by a task that never got the lock - is not bracketed, the step function lets
+    it free the lock held by task 1, task 3 is then granted the client and transmits in the middle of 1's exchange: the
+    event trace is rejected by the lock-discipline acceptor -/
+def strayP : Progs := fun t =>
+  if t = 2 then Prog.seq [⟨[.release], .raw [], fun _ => .timeout⟩]
+  else Prog.request (exCfg 0) (.rdbi [0x1000 + t]) (exScript [] [.timeout] [])
+
+theorem unbracketed_release_breaks_exclusion :
+    wfIn false ((strayP 2).round 0).acts = false ∧
+    (match mrun strayP (MSys.init strayP (fun t => t == 1 || t == 2 || t == 3)) [.run 1, .run 1, .run 1, .run 3, .run 2, .run 3, .run 3] with
+     | some s => s.events == [.want 1, .got 1, .op 1 .write, .want 3, .rel 2, .ended 2, .got 3, .op 3 .write] &&
+                 (accept Sys.init s.events).isNone
+     | none => false) = true := by decide +kernel
+
+end Examples
+
+end Multi
 
 end Gallia.C05
